@@ -327,8 +327,10 @@ class Forall:
        hints: f(*consts) -> [ground terms] that are mentioned as seeds for E-matching when the clause is *proved*
        (the engine skolemises the quantifier itself, so hints can mention the skolem constants)."""
 
-    def __init__(self, vars_, body, patterns=None, hints=None):
-        self.vars_, self.body, self.patterns, self.hints = vars_, body, patterns, hints
+    def __init__(self, vars_, body, patterns=None, hints=None, without=None):
+        """without: terms (typically array constants of unrelated fields); hypotheses mentioning any of them are left out of
+        this clause's VC (sound: fewer hypotheses) to keep the query small."""
+        self.vars_, self.body, self.patterns, self.hints, self.without = vars_, body, patterns, hints, without
 
     def as_formula(self):
         vs = [z3.Const(n, srt) for n, srt in self.vars_]
